@@ -383,4 +383,36 @@ def gDivConst (res a b : Var) (B : Bnds) : Out :=
   if (B b).isFixed then { cons := [.linRhs .eq [((B b).fixedVal, res), (-1, a)] 0] }
   else { unmodelled := true }
 
+/-! ## unary encoding of an integer variable (`MIPFlatConverter::CreateUnaryEncoding`)
+
+For `v ∈ [lb, ub]` integer and one binary flag per value (the result variables of the reified comparisons
+`v == j` where they exist, fresh binaries for the other values): `Σ flag_j = 1` and `Σ j·flag_j - v = 0`.
+Not correspondence-checked per gadget (the step runs in `ConvertMaps` over an `unordered_map`); the end-to-end
+oracle covers it semantically. -/
+
+/-- `Σ j·flag_j` with values `k, k+1, …` in flag order -/
+def uencLin : Int → List Var → Lin
+  | _, [] => []
+  | k, f :: t => ((k : Rat), f) :: uencLin (k + 1) t
+
+def gUnaryEnc (v : Var) (lb : Int) (flags : List Var) : Out :=
+  { cons := [.linRhs .eq (ones flags) 1, .linRhs .eq (uencLin lb flags ++ [(-1, v)]) 0] }
+
+/-- every flag is the reification of `w = its value` -/
+def uencOK (y : Asg) (w : Rat) : Int → List Var → Prop
+  | _, [] => True
+  | k, f :: t => (y f = 1 ↔ w = (k : Rat)) ∧ uencOK y w (k + 1) t
+
+
+/-! ## mul.h — product with a binary variable
+
+`LinearizeProductWithBinaryVar(c, x, y)`: `c·b·o` becomes `c·r` with `r = IfThen(b, o, zero)` where `zero` is the
+fixed variable 0 (`MakeFixedVar(0.0)`); `r` gets a fresh id, its bounds are those of `PreprocessConstraint(IfThen)`.
+Only the term-level step is modelled (the enclosing row is re-sorted/merged by `sort_terms`). -/
+def gMulBinTerm (b o zero : Var) (B : Bnds) (n : Nat) : Out :=
+  { vars := [{ lb := match (B o).lb with | some l => some (if l ≤ 0 then l else 0) | none => none,
+               ub := match (B o).ub with | some u => some (if 0 ≤ u then u else 0) | none => none,
+               isInt := (B o).isInt }],
+    cons := [.func n .none (.ifthen b o zero)] }
+
 end MpVerif.C01
